@@ -47,6 +47,11 @@ RECURSIVE BumpAll(_, _)
 BumpAll(st, keys) == IF keys = <<>> THEN st ELSE BumpAll(Force(Bump(st, Head(keys), 1)), Tail(keys))
 MemoCand(prop, code, key, val, info) == Cand(prop, code, key \notin DOMAIN memo \/ memo[key] = val, info)
 MemoPut(mm, key, val) == IF key \in DOMAIN mm THEN mm ELSE mm @@ (key :> val)
+MemoSet(mm, key, val) == [k \in DOMAIN mm \cup {key} |-> IF k = key THEN val ELSE mm[k]]
+MemoDel(mm, key) == [k \in DOMAIN mm \ {key} |-> mm[k]]
+\* what getOptimalSpline() exposes, without the address: "none" for no spline or an uninitialised one
+Exposed(o) == IF o.null THEN "none" ELSE IF ~o.init THEN "none" ELSE [tsegs |-> o.tsegs, pts |-> o.pts, gbc |-> o.gbc, start |-> o.start, coef |-> o.coef]
+ExpKey(id) == <<"exposed", id>>
 WorstOf(seq0) == LET seq == Force(seq0)
                      F[i \in 0..Len(seq)] == IF i = 0 THEN <<Zero, 0>> ELSE LET p == F[i - 1] IN IF RLt(p[1], seq[i]) THEN <<seq[i], i>> ELSE p
                  IN F[Len(seq)]
@@ -140,7 +145,7 @@ SetInitStep(ev) ==
 TrSetInit == IsEvent("set_init") /\ sc' = SetInitStep(Ev)
              /\ OSetInit(Ev.obj, l, sc'.n, sc'.valid, sc'.stored) /\ Record
 
-NewStep(ev) == Force([StepRec(VerdictCandsM("new", ev.out, FALSE, FALSE, FALSE, [order |-> ev.order]), <<"optimizers">>) EXCEPT !.cfgs = With(cfgs, ev.obj, NewCfg(ev))])
+NewStep(ev) == Force([StepRec(VerdictCandsM("new", ev.out, FALSE, FALSE, FALSE, [order |-> ev.order]), <<"optimizers">>) EXCEPT !.cfgs = With(cfgs, ev.obj, NewCfg(ev)), !.memo = MemoSet(memo, ExpKey(ev.obj), "none")])
 TrNew == IsEvent("opt_new") /\ sc' = NewStep(Ev) /\ ONew(Ev.obj) /\ Record
 TrVerdict == IsEvent("verdict") /\ sc' = Force(StepRec(VerdictCands("verdict", Ev.out, cfgs[Ev.obj].valid, FALSE, << >>), <<"verdicts">>))
              /\ UNCHANGED <<opts, umaps, nextWs>> /\ Record
@@ -290,8 +295,13 @@ EvaluateStep(ev) ==
                        ELSE <<>>)
                       \o DecodeCands("C09", mc, c, ev.x, ev.out.spline, info)
                       \o <<MemoCand("C12", "evaluate.bits", key, val, info),
-                           Cand("C09", "optimal_spline", OwnWs(ev) => ~ev.out.optimal.null /\ ev.out.optimal = ev.out.spline, info)>>
-    IN Force([StepRec(cands, <<"evaluations", IF exact THEN "evaluations_exact" ELSE "evaluations_memo_only">>) EXCEPT !.memo = MemoPut(memo, key, val)])
+                           Cand("C09", "optimal_spline", OwnWs(ev) => ~ev.out.optimal.null /\ ev.out.optimal = ev.out.spline, info),
+                           \* an evaluation with an external workspace leaves the exposed spline as the last built-in evaluation (or copy) left it
+                           Cand("C09", "optimal.kept_by_external_evaluation",
+                                OwnWs(ev) \/ ExpKey(ev.obj) \notin DOMAIN memo \/ Exposed(ev.out.optimal) = memo[ExpKey(ev.obj)], info)>>
+        m1 == MemoPut(memo, key, val)
+        m2 == IF OwnWs(ev) /\ okshape THEN MemoSet(m1, ExpKey(ev.obj), Exposed(ev.out.optimal)) ELSE m1
+    IN Force([StepRec(cands, <<"evaluations", IF exact THEN "evaluations_exact" ELSE "evaluations_memo_only">>) EXCEPT !.memo = m2])
 TrEvaluate == IsEvent("evaluate") /\ sc' = EvaluateStep(Ev) /\ OEvaluate(Ev.obj, OwnWs(Ev)) /\ Record
 
 \* concurrent evaluations on one optimizer, one workspace per thread (C12): exactly the values the same calls return one after another
@@ -349,14 +359,19 @@ CheckGradStep(ev) ==
                            Cand("C19", "check.verdict_wrong_functor", (farAbove /\ noiseOK) => ~ev.out.valid, info @@ [e2 |-> RShow(e2)]),
                            Cand("C19", "check.verdict_right_functor", (exactRight /\ noiseOK) => ev.out.valid, info)>>
                       \o DecodeCands("C19", mc, c, ev.x, ev.out.spline, info)
-    IN Force(StepRec(cands, <<"gradient_checks", IF okshape /\ farAbove /\ noiseOK THEN "checks_with_detectable_lie"
-                                                  ELSE IF okshape /\ exactRight /\ noiseOK THEN "checks_with_correct_functor" ELSE "checks_indeterminate">>))
+    IN Force([StepRec(cands, <<"gradient_checks", IF okshape /\ farAbove /\ noiseOK THEN "checks_with_detectable_lie"
+                                                  ELSE IF okshape /\ exactRight /\ noiseOK THEN "checks_with_correct_functor" ELSE "checks_indeterminate">>)
+              EXCEPT !.memo = MemoDel(memo, ExpKey(ev.obj))])      \* (what the self-check leaves exposed is judged by DecodeCands above)
 TrCheckGrad == IsEvent("check_grad") /\ sc' = CheckGradStep(Ev) /\ OEvaluate(Ev.obj, OwnWs(Ev)) /\ Record
 
 (* --------------------------- copies, lifetime (C15) -------------------- *)
-CopyStep(ev) == Force([StepRec(<<>>, <<"copies">>) EXCEPT !.cfgs = With(cfgs, ev.dst, cfgs[ev.src])])
+\* a copy / an assigned optimizer exposes what its source exposes (a deep copy of the built-in workspace, or none)
+CopyStep(ev) == Force([StepRec(<<>>, <<"copies">>) EXCEPT !.cfgs = With(cfgs, ev.dst, cfgs[ev.src]),
+                          !.memo = IF ev.dst = ev.src THEN memo
+                                   ELSE IF ExpKey(ev.src) \in DOMAIN memo THEN MemoSet(memo, ExpKey(ev.dst), memo[ExpKey(ev.src)])
+                                   ELSE MemoDel(memo, ExpKey(ev.dst))])
 TrCopy == (IsEvent("opt_copy") \/ IsEvent("opt_assign")) /\ sc' = CopyStep(Ev) /\ OCopy(Ev.dst, Ev.src) /\ Record
-TrDestroy == IsEvent("opt_destroy") /\ sc' = Force([StepRec(<<>>, <<"destroys">>) EXCEPT !.cfgs = [i \in DOMAIN cfgs \ {Ev.obj} |-> cfgs[i]]])
+TrDestroy == IsEvent("opt_destroy") /\ sc' = Force([StepRec(<<>>, <<"destroys">>) EXCEPT !.cfgs = [i \in DOMAIN cfgs \ {Ev.obj} |-> cfgs[i]], !.memo = MemoDel(memo, ExpKey(Ev.obj))])
              /\ ODestroy(Ev.obj) /\ Record
 \* distinct live optimizers never expose the same built-in workspace
 OptimalStep(ev) ==
@@ -365,13 +380,15 @@ OptimalStep(ev) ==
         others == {memo[k] : k \in {k2 \in DOMAIN memo : k2[1] = "wsaddr" /\ k2[2] # ev.obj /\ k2[2] \in OLive}}
         cands == <<Cand("C15", "workspace.not_shared", addr = 0 \/ addr \notin others, [obj |-> ev.obj, addr |-> addr]),
                    \* (whether an unused optimizer already has a built-in workspace is an implementation choice: only "used => exists" is required)
-                   Cand("C15", "workspace.exists_once_used", opts[ev.obj].ws # 0 => ~ev.out.optimal.null, [obj |-> ev.obj])>>
+                   Cand("C15", "workspace.exists_once_used", opts[ev.obj].ws # 0 => ~ev.out.optimal.null, [obj |-> ev.obj]),
+                   \* the exposed spline is the one of the last built-in evaluation of this optimizer, or of its source at the time of the copy
+                   Cand("C15", "optimal.content", ExpKey(ev.obj) \notin DOMAIN memo \/ Exposed(ev.out.optimal) = memo[ExpKey(ev.obj)], [obj |-> ev.obj])>>
     IN Force([StepRec(cands, <<"optimal_queries">>) EXCEPT !.memo = [k \in DOMAIN memo \cup {key} |-> IF k = key THEN addr ELSE memo[k]]])
 TrOptimal == IsEvent("get_optimal") /\ sc' = OptimalStep(Ev) /\ UNCHANGED <<opts, umaps, nextWs>> /\ Record
 
 TrReset ==
     /\ IsEvent("reset") /\ OReset
-    /\ memo' = (IF "VJ_KEEPMEMO" \in DOMAIN IOEnv /\ IOEnv.VJ_KEEPMEMO = "1" THEN [k \in {k2 \in DOMAIN memo : k2[1] # "wsaddr"} |-> memo[k]] ELSE << >>)
+    /\ memo' = (IF "VJ_KEEPMEMO" \in DOMAIN IOEnv /\ IOEnv.VJ_KEEPMEMO = "1" THEN [k \in {k2 \in DOMAIN memo : k2[1] # "wsaddr" /\ k2[1] # "exposed"} |-> memo[k]] ELSE << >>)
     /\ cfgs' = << >> /\ mstate' = << >> /\ nexec' = nexec + 1 /\ stats' = Bump(stats, "executions", 1) /\ sc' = << >>
     /\ UNCHANGED <<bad, worst>> /\ Advance
 TrNote == (IsEvent("note") \/ IsEvent("ws_destroy")) /\ sc' = Force(StepRec(<<>>, <<"notes">>)) /\ UNCHANGED <<opts, umaps, nextWs>> /\ Record
